@@ -4,6 +4,8 @@ package chain
 
 import (
 	"bytes"
+	"encoding/binary"
+	"math/big"
 	"crypto/sha256"
 
 	"github.com/piotrnar/gocoin/lib/btc"
@@ -125,5 +127,159 @@ func H_C05_Merkle() {
 	zzverif.Assert("C05.merkle.root", bytes.Equal(got, want[:]))
 	if wmut {
 		zzverif.Reach("mutated")
+	}
+}
+
+// ref_next_work: Bitcoin Core's GetNextWorkRequired / CalculateNextWorkRequired (pow.cpp) for main net rules
+func ref_next_work(height uint32, lastBits, lastTime, firstTime uint32, limit *big.Int) uint32 {
+	if (height+1)%2016 != 0 {
+		return lastBits
+	}
+	span := int64(lastTime) - int64(firstTime)
+	const T = 14 * 24 * 60 * 60
+	if span < T/4 {
+		span = T / 4
+	}
+	if span > T*4 {
+		span = T * 4
+	}
+	bn := btc.SetCompact(lastBits) // decided against arith_uint256::SetCompact by H_C05_CompactDecode
+	bn.Mul(bn, big.NewInt(span))
+	bn.Div(bn, big.NewInt(T))
+	if bn.Cmp(limit) > 0 {
+		bn = limit
+	}
+	return btc.GetCompact(bn) // decided against arith_uint256::GetCompact by H_C05_CompactEncode
+}
+
+// C05: difficulty retargeting on main net: the required bits after a parent at a period boundary (and inside a
+// period) for arbitrary timestamps of the first and last block of the period and a case split of the parent's
+// target, against pow.cpp.
+func H_C05_Retarget() {
+	zzverif.IntMode()
+	ch := new(Chain)
+	ch.Genesis = btc.NewUint256(make([]byte, 32)) // mainnet-like (neither testnet marker byte)
+	ch.Consensus.MaxPOWBits = 0x1d00ffff
+	ch.Consensus.MaxPOWValue, _ = new(big.Int).SetString("00000000FFFFFFFFFFFFFFFFFFFFFFFFFFFFFFFFFFFFFFFFFFFFFFFFFFFFFFFF", 16)
+	heights := []uint32{2015, 2014, 2016, 4031}
+	height := heights[zzverif.Enum("parent-height", len(heights))]
+	bitsCases := []uint32{0x1d00ffff, 0x1c7fffff, 0x1b0404cb, 0x1701f0cc, 0x1d00c000, 0x03123456}
+	bits := bitsCases[zzverif.Enum("parent-bits", len(bitsCases))]
+	zzverif.Bound("retarget", "parent heights 2015, 2014, 2016, 4031; parent targets 1d00ffff, 1c7fffff, 1b0404cb, 1701f0cc, 1d00c000, 03123456; first and last timestamp of the period arbitrary")
+	tFirst, tLast := zzverif.U32("time.first"), zzverif.U32("time.last")
+	// the parent and its 2015 ancestors
+	var first, lst *BlockTreeNode
+	var prev *BlockTreeNode
+	base := height - 2015
+	if height < 2015 {
+		base = 0
+	}
+	for h := base; h <= height; h++ {
+		n := &BlockTreeNode{Height: h, Parent: prev}
+		binary.LittleEndian.PutUint32(n.BlockHeader[72:76], bits)
+		if prev == nil {
+			first = n
+			if h > 0 {
+				n.Parent = &BlockTreeNode{Height: h - 1} // not the genesis block
+			}
+		}
+		prev = n
+	}
+	lst = prev
+	binary.LittleEndian.PutUint32(first.BlockHeader[68:72], tFirst)
+	binary.LittleEndian.PutUint32(lst.BlockHeader[68:72], tLast)
+	got := ch.GetNextWorkRequired(lst, zzverif.U32("time.new"))
+	want := ref_next_work(height, bits, tLast, tFirst, ch.Consensus.MaxPOWValue)
+	zzverif.Assert("C05.retarget", got == want)
+	if (height+1)%2016 == 0 {
+		if int64(tLast)-int64(tFirst) < 14*24*60*60/4 {
+			zzverif.Reach("clamped-low")
+		}
+		if int64(tLast)-int64(tFirst) > 14*24*60*60*4 {
+			zzverif.Reach("clamped-high")
+		}
+	}
+}
+
+// C05: the BIP141 witness commitment in PostCheckBlock. A block of a coinbase (1..2 outputs of five kinds: plain,
+// correct commitment, commitment with an arbitrary hash, correct commitment in a 39-byte script, 37-byte
+// look-alike) and one more transaction, coinbase witness of four shapes, second transaction with or without
+// witness: accepted exactly when the LAST commitment-shaped output commits to the witness merkle root with a
+// single 32-byte nonce, or there is no commitment and no witness data at all. Merkle root matches by construction.
+func H_C05_WitnessCommitment() {
+	const height = 840000
+	ch, _, _ := h_chain(1, height-1)
+	raw := make([]byte, 81)
+	raw[0] = 4
+	bl, _ := btc.NewBlock(raw)
+	bl.Height = height
+	cb := new(btc.Tx)
+	cb.Version = 1
+	cb.TxIn = []*btc.TxIn{{Input: btc.TxPrevOut{Vout: 0xffffffff}, ScriptSig: append(script.UintToScript(height), 0x51), Sequence: 0xffffffff}}
+	cb.Hash.Hash = h_id(0xC0)
+	tx2 := new(btc.Tx)
+	tx2.Version = 1
+	tx2.TxIn = []*btc.TxIn{{Input: btc.TxPrevOut{Hash: h_id(0xA1)}, ScriptSig: []byte{}, Sequence: 0xffffffff}}
+	tx2.TxOut = []*btc.TxOut{{Value: 1, Pk_script: []byte{0x51}}}
+	copy(tx2.Hash.Hash[:], zzverif.Bytes("tx2.txid", 32))
+	zzverif.Assume(tx2.Hash.Hash != cb.Hash.Hash) // equal txids are the CVE-2012-2459 mutation case (H_C05_Merkle)
+	if zzverif.Bool("tx2.has-witness") {
+		tx2.SegWit = [][][]byte{{{1}}}
+	}
+	nonce := zzverif.Bytes("nonce", 32)
+	switch zzverif.Enum("coinbase-witness", 4) {
+	case 1:
+		cb.SegWit = [][][]byte{{nonce}}
+	case 2:
+		cb.SegWit = [][][]byte{{nonce[:31]}}
+	case 3:
+		cb.SegWit = [][][]byte{{nonce, nonce}}
+	}
+	bl.Txs = []*btc.Tx{cb, tx2}
+	// the commitment value for this block (the same library functions the check uses; the hash itself is a ghost)
+	wm, _ := btc.GetWitnessMerkle(bl.Txs)
+	commit := btc.Sha2Sum(append(append([]byte{}, wm...), nonce...))
+	hdr := []byte{0x6a, 0x24, 0xaa, 0x21, 0xa9, 0xed}
+	nout := 1 + zzverif.Enum("coinbase-outputs-1", 2)
+	for i := 0; i < nout; i++ {
+		var scr []byte
+		switch zzverif.Enum("output-kind", 5) {
+		case 0:
+			scr = []byte{0x51}
+		case 1:
+			scr = append(append([]byte{}, hdr...), commit[:]...)
+		case 2:
+			scr = append(append([]byte{}, hdr...), zzverif.Bytes("other-hash", 32)...)
+		case 3:
+			scr = append(append(append([]byte{}, hdr...), commit[:]...), 0x00)
+		case 4:
+			scr = append(append([]byte{}, hdr...), commit[:31]...)
+		}
+		cb.TxOut = append(cb.TxOut, &btc.TxOut{Value: 0, Pk_script: scr})
+	}
+	m, _ := bl.GetMerkle()
+	copy(bl.Raw[36:68], m)
+
+	// reference (validation.cpp: GetWitnessCommitmentIndex, CheckWitnessMalleation)
+	pos := -1
+	for i, o := range cb.TxOut {
+		if len(o.Pk_script) >= 38 && bytes.Equal(o.Pk_script[:6], hdr) {
+			pos = i
+		}
+	}
+	want := false
+	if pos >= 0 {
+		want = len(cb.SegWit) == 1 && len(cb.SegWit[0]) == 1 && len(cb.SegWit[0][0]) == 32 &&
+			bytes.Equal(cb.TxOut[pos].Pk_script[6:38], commit[:])
+	} else {
+		want = cb.SegWit == nil && tx2.SegWit == nil
+	}
+	er := ch.PostCheckBlock(bl)
+	zzverif.Assert("C05.witness-commitment", (er == nil) == want)
+	if er == nil && pos >= 0 {
+		zzverif.Reach("committed")
+	}
+	if er == nil && pos < 0 {
+		zzverif.Reach("no-witness")
 	}
 }
